@@ -26,6 +26,7 @@ type SpecEnv struct {
 	pkg   *types.Package
 	pc    *PkgContracts
 	depth int
+	lets  []*LetDef // macros: evaluated at use in the current environment
 }
 
 type specError struct{ msg string }
@@ -50,7 +51,10 @@ func (c *Ctx) newSpecEnv(s *State, fr *Frame) *SpecEnv {
 	} else if c.fn != nil && c.fn.Pkg != nil {
 		e.pkg = c.fn.Pkg.Pkg
 	}
-	if fr != nil && fr.fn != c.fn {
+	if c.fc != nil {
+		e.lets = c.fc.Lets
+	}
+	if fr != nil && fr.fn != c.fn && fr.fn.Pkg != nil {
 		if pc := c.eng.db.Pkgs[fr.fn.Pkg.Pkg.Path()]; pc != nil {
 			e.pc = pc
 		}
@@ -265,6 +269,16 @@ func (e *SpecEnv) tryIdent(name string) (Val, bool) {
 	}
 	if v, ok := e.vars[name]; ok {
 		return v, true
+	}
+	for _, l := range e.lets {
+		if l.Name == name {
+			if e.depth > 40 {
+				specFail("let recursion")
+			}
+			n := e.sub()
+			n.depth = e.depth + 1
+			return n.eval(l.Expr), true
+		}
 	}
 	if !e.useSrc && e.fr != nil {
 		// fall back to source names even outside loops (named results, locals in assertions)
@@ -1049,6 +1063,7 @@ func (e *SpecEnv) applySpec(sf *SpecFunc, recv Val, args []ast.Expr) Val {
 	}
 	n.bound = nb
 	n.useSrc = false
+	n.lets = nil
 	n.vars = map[string]Val{}
 	if pc := e.c.eng.db.Pkgs[sf.Pkg]; pc != nil {
 		n.pc = pc
